@@ -60,16 +60,19 @@ Theorem C27_refuted_D14_panic :
 Proof. exists witness_D14_panic. exact roundtrip_refuted_D14_panic. Qed.
 Print Assumptions C27_refuted_D14_panic.
 
-(* D28 / D29: an item that wrappers.rs re-encodes differently (payload-less stream -> future; explicit core rec
-   group inside an instance type -> separate types): the round trip returns the re-encoded item. *)
-Theorem C27_refuted_D28 :
+(* The re-encoding table [sf] (component-type item |-> the item as wrappers.rs re-encodes it) used to describe two
+   genuine defects, D28 (payload-less stream inside a type declaration -> future) and D29 (explicit core rec group
+   inside an instance type -> separate types).  Both are repaired in /repo ("fix:" commits), the harness now
+   supplies the empty table, and a deviation of the real output is a model/implementation mismatch.  The statement
+   below records why such a deviation matters: an item that is re-encoded differently breaks the round trip. *)
+Theorem C27_a_reencoded_item_breaks_the_round_trip :
   exists sf t, wf t = true /\ known_D14 t = false /\ reenc_hit sf t = true /\
                exists out, roundtrip sf t = Some out /\ ~ eqv out t.
 Proof. exists [(1, 2)]%N, [NItems ICompType [1%N]]. exact roundtrip_refuted_D28. Qed.
-Print Assumptions C27_refuted_D28.
+Print Assumptions C27_a_reencoded_item_breaks_the_round_trip.
 
 (* Whenever the implementation's observed output agrees with the model (correspondence check) on a case inside the
-   domain and outside every known class (D14, D28, D29), and the validator accepts the output, the independent property checker
+   domain and outside every known class (D14), and the validator accepts the output, the independent property checker
    accepts it. *)
 Theorem C27_checker_sound :
   forall c : ccase,
